@@ -18,6 +18,7 @@ TReset == /\ Is("Reset")
           /\ res' = "none" /\ act' = "Init" /\ consec' = 0
           /\ Consume
 TAsk  == Is("Ask")  /\ Ask  /\ res' = TLog[l].res /\ Projected /\ Consume
+TRace == Is("Race") /\ Race(TLog[l].n) /\ TLog[l].admits = RaceAdmits(TLog[l].n) /\ Projected /\ Consume
 TFail == Is("Fail") /\ Fail /\ Projected /\ Consume
 TSucc == Is("Succ") /\ Succ /\ Projected /\ Consume
 TTick == Is("Tick") /\ Tick(TLog[l].d) /\ Consume
@@ -35,7 +36,7 @@ KF_C08_1 == /\ "KF-C08-1" \in KnownDeviations
             /\ UseDeviation("KF-C08-1")
 
 TraceInit == Init /\ l = 1
-TraceNext == TReset \/ TAsk \/ TFail \/ TSucc \/ TTick \/ KF_C08_1
+TraceNext == TReset \/ TAsk \/ TRace \/ TFail \/ TSucc \/ TTick \/ KF_C08_1
 TraceSpec == TraceInit /\ [][TraceNext]_tvars
 HW == HWMark(l)
 =============================================================================
